@@ -118,7 +118,7 @@ class MPCacheSimple(MPCacheBase):
     def unset(self, key):
         with self.cache_lock:
             with shelve.open(os.path.join(self.cache_base_path, key)) as db:
-                del db[key]
+                db.pop('0', None)
 
     def __iter__(self):
         with self.cache_lock:
